@@ -124,10 +124,16 @@ func VP_C12_Canonical() {
 		vpAssume(vpIsDNA10(b))
 	}
 	orig := append([]byte(nil), seq...)
-	var items [][]byte
+	var items, kept [][]byte
 	for km := range CanonicalSubsequences(seq, k) {
 		items = append(items, append([]byte(nil), km...))
+		kept = append(kept, km) // the yielded slice itself
 	}
+	stable := len(kept) == len(items)
+	for i := 0; stable && i < len(items); i++ {
+		stable = bytes.Equal(kept[i], items[i])
+	}
+	vpAssert(stable, "items collected during the iteration still hold their values afterwards")
 	want := n - k + 1
 	if want < 0 {
 		want = 0
